@@ -111,8 +111,8 @@ def objective(model, gemini, Xb, Ab, pairs=None):
         from sklearn.metrics import pairwise_kernels
         Kfull = model._compute_kernel(model.input_data_)
         val -= model.reg * float(np.trace(model.W_.T @ Kfull @ model.W_))
-    if pairs:
-        idx, ml, cl, factor = pairs
+    for deco in ([] if not pairs else (pairs if isinstance(pairs, list) else [pairs])):     # one entry per decoration, each with ITS factor
+        idx, ml, cl, factor = deco
         for (i, j) in cl:
             if i in idx and j in idx:
                 a, b = idx.index(i), idx.index(j)
@@ -261,6 +261,16 @@ def fit_cases(ctx, rs, nfits):
                 fam, cls = "Douglas", E["Douglas"]
                 kw = dict(n_clusters=K, max_iter=3, solver=str(rs.choice(["adam", "sgd"])), random_state=int(rs.randint(100)), learning_rate=0.05,
                           gemini=str(rs.choice(fl.GEMINI_NAMES)), batch_size=[None, 4][rs.randint(2)], n_cuts=3)
+                # a tree on ONE feature (one column, or a mask with a single entry): the leaf memberships then ARE the memberships of that
+                # feature (no product is formed), which is the degenerate end of the N-d bookkeeping in `_compute_grads`
+                variant = ((it - ded0) // 2) % 3
+                if variant == 1:
+                    X = X[:, :1]; d = 1
+                elif variant == 2:
+                    X = fl.small_data(rs, n, 3); d = 3
+                    mask = np.zeros(3, dtype=bool); mask[rs.randint(3)] = True
+                    kw["feature_mask"] = mask
+                ctx.count(f"douglas_dedicated_variant:{variant}")
             else:
                 fam, cls = "KernelRIM", E["KernelRIM"]
                 kw = dict(n_clusters=K, max_iter=2, solver=str(rs.choice(["adam", "sgd"])), random_state=int(rs.randint(100)), learning_rate=0.05,
@@ -271,7 +281,7 @@ def fit_cases(ctx, rs, nfits):
         if fam == "Douglas" and "n_cuts" not in kw:
             kw["n_cuts"] = int(rs.randint(1, 4))
             kw["max_iter"] = 2
-        if fam == "Douglas":
+        if fam == "Douglas" and "feature_mask" not in kw:
             if d > 2:
                 X = X[:, :2]; d = 2
         decorated = fam in ("LinearModel", "MLPModel", "CategoricalModel") and rs.rand() < 0.7
@@ -284,9 +294,11 @@ def fit_cases(ctx, rs, nfits):
                       learning_rate=0.05, gemini=str(rs.choice(["kl_ova", "mmd_ova", "hellinger_ovo", "chi2_ova"])))
             if fam == "MLPModel":
                 kw["n_hidden_dim"] = 3
-        inp = {"estimator": fam, "params": {k: v for k, v in kw.items()}, "X": X.tolist(), "decorated": bool(decorated)}
+        inp = {"estimator": fam, "params": {k: (v.tolist() if isinstance(v, np.ndarray) else v) for k, v in kw.items()}, "X": X.tolist(),
+               "decorated": bool(decorated)}
         model = cls(**kw)
         ml, cl, factor = [], [], 1.0
+        second = None
         if decorated:
             perm = rs.permutation(n)
             factor = float(rs.choice([0.5, 2.0]))
@@ -320,6 +332,17 @@ def fit_cases(ctx, rs, nfits):
                     ctx.count("mlcl_rejected_valid_pairs(see C14)")
                     continue
                 inp["must_link"], inp["cannot_link"], inp["factor"] = ml, cl, factor
+                if shape in (0, 3) and (it >= nfits - 12 or rs.rand() < 0.5):
+                    # a SECOND decoration of the same estimator, with its own pairs and its own factor: both sets of terms are part of the
+                    # objective, each weighted by the factor it was given
+                    ml2, cl2, factor2 = [(int(perm[1]), int(perm[0]))] if shape == 3 else [], [(int(perm[0]), int(perm[2]))] if shape == 0 else [], 3.0 * factor
+                    try:
+                        model = gemclus.add_mlcl_constraint(model, ml2, cl2, factor2)
+                        second = (ml2, cl2, factor2)
+                        inp["second_decoration"] = {"must_link": ml2, "cannot_link": cl2, "factor": factor2}
+                        ctx.count("mlcl:second-decoration")
+                    except ValueError:
+                        ctx.count("mlcl:second-decoration-rejected")
         steps = []
         try:
             with fl.capture_updates() as ups:
@@ -343,7 +366,7 @@ def fit_cases(ctx, rs, nfits):
                     for si in range(min(len(ups), len(steps)))[-4:]:
                         before, grads = ups[si]
                         Xb, Ab, idx = steps[si]
-                        pairs = (idx, ml, cl, factor) if decorated else None
+                        pairs = ([(idx, ml, cl, factor)] + ([(idx,) + second] if second else [])) if decorated else None
                         if not check_step(ctx, rs, model, gemini, weights, before, grads, Xb, Ab, pairs, {**inp, "step": int(si)}):
                             break
                 except Exception:
@@ -378,7 +401,7 @@ def fit_cases(ctx, rs, nfits):
         for si in sel:
             before, grads = ups[si]
             Xb, Ab, idx = steps[si]
-            pairs = (idx, ml, cl, factor) if decorated else None
+            pairs = ([(idx, ml, cl, factor)] + ([(idx,) + second] if second else [])) if decorated else None
             if not check_step(ctx, rs, model, gemini, weights, before, grads, Xb, Ab, pairs, {**inp, "step": int(si)}):
                 break
 
